@@ -136,8 +136,8 @@ class PathNode(ConfigList):
     @namespace('ayns')
     @property
     def tag(self):
-        if not self.ref_point:
-            return '!path'
+        # always the long form: it is read back by _path_constructor (mapping = keyword arguments,
+        # and `!path::<encoded>` keeps an empty reference point apart from metadata)
         return '!path:' + self.ref_point
 
     @namespace('ayns')
